@@ -124,7 +124,7 @@ private def dn (s : String) : String := String.ofList (dname s)
 /-- The projections on a concrete output tree - what the model's `format` returns for the left document
 `<a><b k="1">the old text</b>tail<c/></a>` and the script "insert `d`, delete `c`, set the text and the tail of `b`, rename
 `b` to `x`, move it into `d`" (the recursive functions of `finalize` are not kernel-reducible, so the tree is written
-out; unit U10 compares `formatTreeE` with the code, unit U12 these two functions with the projections of the
+out; unit U9e compares `formatTreeE` with the code, unit U9p these two functions with the projections of the
 per-run oracle): the original of the moved element is dropped with its marked tail when accepting, the copy and the
 inserted `d` when rejecting. -/
 example :
